@@ -288,6 +288,14 @@ def _items(out):
     return m.split(' '), x, n
 
 
+def _close_tok(a, b):
+    """numbers recomputed with float arithmetic vs exactly (sums with cancellation): 1e-9 relative or 1e-12 absolute"""
+    if a.startswith('n:') and b.startswith('n:'):
+        x, y = core.dec(a), core.dec(b)
+        return abs(x - y) <= max(Fraction(1, 10**9) * max(abs(x), abs(y)), Fraction(1, 10**12))
+    return False
+
+
 def same(impl_out, model_out):
     """equal reports; numbers (recomputed by float arithmetic on one side, exactly on the other) up to 1e-12 relative"""
     if impl_out == model_out:
@@ -303,7 +311,7 @@ def same(impl_out, model_out):
         if ia != ib:
             return False
         for ta, tb in zip(split_two_tokens(ra), split_two_tokens(rb)):
-            if ta != tb and not core.num_close(ta, tb):
+            if ta != tb and not _close_tok(ta, tb):
                 return False
     return True
 
